@@ -332,6 +332,9 @@ func runC18(w *World) {
 
 	nOther := 1 + w.knob("others", 3)
 	nscripts := []int{3, 6, 10}[w.knob("nscripts", 3)]
+	if w.deep() && w.knob("deep", 3) == 0 {
+		nscripts = 25
+	}
 	mk := func(client int) *genCfg {
 		g := defaultGenCfg(client)
 		g.keys = []string{"k1"}
